@@ -101,12 +101,16 @@ fn wide(name: String, params: Value) -> Scenario {
 /// An identifier that is unreleased when the connection is lost: after a resume of the live session a
 /// PUBLISH carrying it is still a re-delivery; after an expired session (everything forgotten, a new
 /// subscription made) it is a new message.
-fn reset(name: String, params: Value) -> Scenario {
+pub fn reset(prop: &'static str, name: String, params: Value) -> Scenario {
     Box::new(move |chz, ex| {
         let expired = chz.choose(2) == 1;
+        // how the first connection ends: 0 = end-of-stream, recorded by the hook (a resume);
+        // 1 = the write of the PUBREC itself fails and the Context is simply connected again (the
+        // session bookkeeping lives on): the message has been handed to the application once
+        let failed_write = !expired && chz.choose(2) == 1;
         let pid = [1u16, 300, 65535][chz.choose(3)];
         let released_before = chz.choose(2) == 1;
-        let mut sys = Sys::new("C09", &name, chz);
+        let mut sys = Sys::new(prop, &name, chz);
         sys.params = params.clone();
         sys.auto_exit = false;
         let spec = ConnectSpec {
@@ -131,26 +135,42 @@ fn reset(name: String, params: Value) -> Scenario {
             sys.apply(Ev::TakeStream(0));
             sid.push(sys.m.subs[0].sub_id.unwrap());
         }
-        sys.apply(Ev::Deliver(inbound(2, false, pid, &sid, "first")));
-        if released_before {
-            sys.apply(Ev::Deliver(pubrel_in(pid)));
+        if failed_write {
+            sys.apply(Ev::WriteErr);
         }
-        sys.apply(Ev::Eof);
+        sys.apply(Ev::Deliver(inbound(2, false, pid, &sid, "first")));
+        if !failed_write {
+            if released_before {
+                sys.apply(Ev::Deliver(pubrel_in(pid)));
+            }
+            sys.apply(Ev::Eof);
+        }
         if sys.dead {
             return sys.report(ex, &[]);
         }
-        sys.events.push("MarkDisconnected(10s ago); Reconnect".into());
-        sys.classes.push("Reconnect".into());
-        sys.w.cmd(crate::world::CtxCmd::MarkDisconnected(10));
-        sys.w.new_wire();
-        sys.m.new_wire();
-        sys.connect_with(spec, connack(!expired));
-        if !sys.dead {
-            sys.events.push("Run(resume)".into());
-            sys.classes.push(format!("Resume(expired={})", expired));
-            sys.m.resume(expired);
-            sys.w.cmd(crate::world::CtxCmd::Run);
-            sys.sync();
+        if failed_write {
+            sys.events.push("Reconnect".into());
+            sys.classes.push("Reconnect".into());
+            sys.w.new_wire();
+            sys.m.new_wire();
+            sys.connect_with(spec, connack(false));
+            if !sys.dead {
+                sys.start_run();
+            }
+        } else {
+            sys.events.push("MarkDisconnected(10s ago); Reconnect".into());
+            sys.classes.push("Reconnect".into());
+            sys.w.cmd(crate::world::CtxCmd::MarkDisconnected(10));
+            sys.w.new_wire();
+            sys.m.new_wire();
+            sys.connect_with(spec, connack(!expired));
+            if !sys.dead {
+                sys.events.push("Run(resume)".into());
+                sys.classes.push(format!("Resume(expired={})", expired));
+                sys.m.resume(expired);
+                sys.w.cmd(crate::world::CtxCmd::Run);
+                sys.sync();
+            }
         }
         if expired && !sys.dead {
             sys.apply(Ev::Start(OpSpec::Subscribe(SubscribeSpec::simple("s/new"))));
@@ -177,7 +197,7 @@ fn reset(name: String, params: Value) -> Scenario {
 
 pub fn scenario(name: &str, params: &Value) -> Scenario {
     if name == "C09/reset" {
-        return reset(name.to_string(), params.clone());
+        return reset("C09", name.to_string(), params.clone());
     }
     if name == "C09/wide" {
         return wide(name.to_string(), params.clone());
